@@ -8,8 +8,47 @@ mod lower;
 mod rxcdr;
 mod types;
 
+/// Global allocator of the engine. dust-dds's deserializer calls `Vec::with_capacity(n)` with an
+/// element count read from the stream; when a stream is mis-framed (the findings of C09/C10 do
+/// that to dust-dds's own output) `n` is garbage and the request is tens of gigabytes. A failed
+/// allocation aborts the process (it is not a panic), which would end the campaign. Requests
+/// above 256 MiB are therefore served as lazily committed anonymous mappings (MAP_NORESERVE):
+/// they succeed without touching memory, the decoder then runs into the end of its input and
+/// returns an error, which is what the oracles observe. (Allocation bounds are the subject of
+/// C07, not of the properties served here.)
+struct LazyBig;
+
+const BIG: usize = 256 << 20;
+
+unsafe impl std::alloc::GlobalAlloc for LazyBig {
+    unsafe fn alloc(&self, l: std::alloc::Layout) -> *mut u8 {
+        if l.size() >= BIG {
+            let p = unsafe {
+                libc::mmap(
+                    std::ptr::null_mut(),
+                    l.size(),
+                    libc::PROT_READ | libc::PROT_WRITE,
+                    libc::MAP_PRIVATE | libc::MAP_ANONYMOUS | libc::MAP_NORESERVE,
+                    -1,
+                    0,
+                )
+            };
+            if p == libc::MAP_FAILED { std::ptr::null_mut() } else { p as *mut u8 }
+        } else {
+            unsafe { std::alloc::System.alloc(l) }
+        }
+    }
+    unsafe fn dealloc(&self, p: *mut u8, l: std::alloc::Layout) {
+        if l.size() >= BIG {
+            unsafe { libc::munmap(p as *mut libc::c_void, l.size()) };
+        } else {
+            unsafe { std::alloc::System.dealloc(p, l) }
+        }
+    }
+}
+
 #[global_allocator]
-static A: vcore::alloc::Counting = vcore::alloc::Counting;
+static A: LazyBig = LazyBig;
 
 fn main() {
     // no backtrace symbolisation in children that abort (costs ~100 ms each)
